@@ -281,9 +281,9 @@ theorem lsLoop_encLines (ls : List (List (Pt Int))) (c c' : Cur) (s : GD) (ws : 
 
 theorem i32_zero : i32 0 = 0#32 := rfl
 
-theorem decodePoint_enc (ps : List (Pt Int)) (hne : ps ≠ []) (hps : ∀ p ∈ ps, ptOK p = true)
+theorem decodePoint_enc (ori : List (Pt Int) → Int) (ps : List (Pt Int)) (hne : ps ≠ []) (hps : ∀ p ∈ ps, ptOK p = true)
     (hlen : ps.length < 2^29) (a : Nat) :
-    (decodeGeometryIter oriInt tPoint (moveTo cur0 ps).2 a).1 = .ok (normG (.multiPoint ps)) := by
+    (decodeGeometryIter ori tPoint (moveTo cur0 ps).2 a).1 = .ok (normG (.multiPoint ps)) := by
   have hl := addPoints_length cur0 ps
   have h00 : ptOK (⟨0, 0⟩ : Pt Int) = true := by decide
   have hpos : 0 < ps.length := List.length_pos_iff.2 hne
@@ -357,10 +357,10 @@ theorem lsLoop_encLines_start (l : List (Pt Int)) (ls : List (List (Pt Int))) (c
       simp [normG]
 
 /-- Decoding the words of a non-empty list of lines of the quantifier. -/
-theorem decodeLines_enc (l : List (Pt Int)) (ls : List (List (Pt Int)))
+theorem decodeLines_enc (ori : List (Pt Int) → Int) (l : List (Pt Int)) (ls : List (List (Pt Int)))
     (hl : ∀ x ∈ l :: ls, lineOK x = true) (a : Nat) :
     ∃ c' ws, encLines cur0 (l :: ls) = .ok (c', ws) ∧ ws ≠ [] ∧
-      (decodeGeometryIter oriInt tLineString ws a).1 = .ok (normG (.multiLineString (l :: ls))) := by
+      (decodeGeometryIter ori tLineString ws a).1 = .ok (normG (.multiLineString (l :: ls))) := by
   obtain ⟨c', ws, he⟩ := encLines_ok (l :: ls) cur0 hl
   obtain ⟨c1, w1, h1, hlen⟩ := encLine_ok cur0 l (hl l (by simp))
   obtain ⟨c2, w2, h2⟩ := encLines_ok ls c1 (fun x hx => hl x (by simp [hx]))
@@ -377,24 +377,24 @@ theorem decodeLines_enc (l : List (Pt Int)) (ls : List (List (Pt Int)))
   exact lsLoop_encLines_start l ls cur0 c' _ ws ws.length (inStep0 ws a) hl he rfl (Nat.le_refl _)
 
 /-- Round trip of the non-polygon kinds, from any value of the allocation counter. -/
-theorem roundtrip_lines (g : Geom Int) (h : geomWF g = true)
+theorem roundtrip_lines (ori : List (Pt Int) → Int) (g : Geom Int) (h : geomWF g = true)
     (hk : match g with
       | .point _ | .multiPoint _ | .lineString _ | .multiLineString _ => True
       | _ => False) (a : Nat) :
     ∃ t ws, encodeGeometry g = .ok (t, ws) ∧ ws ≠ [] ∧
-      (decodeGeometryIter oriInt t ws a).1 = .ok (normG g) := by
+      (decodeGeometryIter ori t ws a).1 = .ok (normG g) := by
   cases g with
   | point p =>
     refine ⟨tPoint, (moveTo cur0 [p]).2, rfl, by simp [moveTo], ?_⟩
     simp only [geomWF] at h
-    exact decodePoint_enc [p] (by simp) (by simpa using h) (by simp) a
+    exact decodePoint_enc ori [p] (by simp) (by simpa using h) (by simp) a
   | multiPoint ps =>
     simp only [geomWF, Bool.and_eq_true, Bool.not_eq_true', List.all_eq_true, decide_eq_true_eq] at h
     refine ⟨tPoint, (moveTo cur0 ps).2, rfl, by simp [moveTo], ?_⟩
-    exact decodePoint_enc ps (by intro h0; simp [h0] at h) h.1.2 h.2 a
+    exact decodePoint_enc ori ps (by intro h0; simp [h0] at h) h.1.2 h.2 a
   | lineString l =>
     simp only [geomWF] at h
-    obtain ⟨c', ws, h1, h2, h3⟩ := decodeLines_enc l [] (by simpa using h) a
+    obtain ⟨c', ws, h1, h2, h3⟩ := decodeLines_enc ori l [] (by simpa using h) a
     obtain ⟨c1, w1, e1, _⟩ := encLine_ok cur0 l h
     have : ws = w1 := by
       rw [encLines_cons cur0 c1 c1 l [] w1 [] e1 rfl] at h1
@@ -407,7 +407,7 @@ theorem roundtrip_lines (g : Geom Int) (h : geomWF g = true)
     cases ls with
     | nil => simp at h
     | cons l ls =>
-      obtain ⟨c', ws, h1, h2, h3⟩ := decodeLines_enc l ls h.2 a
+      obtain ⟨c', ws, h1, h2, h3⟩ := decodeLines_enc ori l ls h.2 a
       exact ⟨tLineString, ws, by simp [encodeGeometry, h1, Res.map], h2, h3⟩
   | ring _ => exact hk.elim
   | polygon _ => exact hk.elim
